@@ -451,6 +451,7 @@ class BaseParser:
         unprovided_fields = set()
         rejected_fields = set()
         input_values = {}
+        conflicted = set()
         options = context.options
 
         for key, value in data.items():
@@ -475,7 +476,9 @@ class BaseParser:
             if not options.ignore_alias_conflicts:
                 if name in input_values:  # or (excluded_keys and name in excluded_keys):
                     # compare the input values (not the converted result) of the spellings
-                    if input_values[name] != value:
+                    if input_values[name] != value and name not in conflicted:
+                        # one report per field, however many of its spellings disagree
+                        conflicted.add(name)
                         context.handle_error(exc.AliasConflictError(item=name, value=value))
                     continue
                 input_values[name] = value
@@ -539,6 +542,7 @@ class BaseParser:
         as_attname: bool = False,
         excluded_keys: List[str] = None,
     ):
+        conflicted = set()
         if self.case_insensitive_names:
             _data = {}
             for k, v in data.items():
@@ -551,8 +555,11 @@ class BaseParser:
                         if field and field.is_no_input(v, options=context.options):
                             # a no-input field takes no value: its spellings cannot conflict
                             continue
-                        context.handle_error(exc.AliasConflictError(
-                            item=(field.attname if as_attname else field.name) if field else k, value=v))
+                        item = (field.attname if as_attname else field.name) if field else k
+                        if item not in conflicted:
+                            # one report per field, however many of its spellings disagree
+                            conflicted.add(item)
+                            context.handle_error(exc.AliasConflictError(item=item, value=v))
                         continue
                 _data[k] = v
             data = _data
@@ -582,7 +589,9 @@ class BaseParser:
                             value = data[alias]
                         else:
                             if data[alias] != value:
-                                context.handle_error(exc.AliasConflictError(item=name, value=data[alias]))
+                                if name not in conflicted:
+                                    conflicted.add(name)
+                                    context.handle_error(exc.AliasConflictError(item=name, value=data[alias]))
                                 break
 
             if unprovided(value):
